@@ -2,7 +2,9 @@
 // complete sweeps of stated argument spaces (all 2^32 float32 arguments in the thorough tier) in two
 // stream orders, every architecture's real kernel, per-function frozen ulp bounds, MPFR as arbiter,
 // loop-tick accounting and a hang watchdog.
+#include <fcntl.h>
 #include <fenv.h>
+#include <signal.h>
 #include <unistd.h>
 #include <xmmintrin.h>
 
@@ -180,6 +182,41 @@ struct Heartbeat
     std::atomic<const char*> arch { nullptr };
     std::atomic<uint64_t> first { 0 }, last { 0 };
 };
+
+// A kernel call that dies (stack overflow of a runaway recursion, wild access) must end the run with a report that names
+// the call, not with a bare signal: every worker runs on an alternate signal stack and publishes its heartbeat slot.
+static thread_local Heartbeat* tl_hb = nullptr;
+static char g_crash_out[512];
+static char g_crash_prop[16];
+static void crash_handler(int sig, siginfo_t*, void*)
+{
+    char buf[700];
+    Heartbeat* h = tl_hb;
+    const char* op = h && h->op.load() ? h->op.load() : "?";
+    const char* arch = h && h->arch.load() ? h->arch.load() : "?";
+    int n = snprintf(buf, sizeof buf, "{\"property_id\": \"%s\", \"crash\": true, \"signal\": %d, \"op\": \"%s\", \"arch\": \"%s\", \"first_arg\": \"0x%llx\", \"last_arg\": \"0x%llx\"}\n", g_crash_prop, sig, op, arch,
+                     h ? (unsigned long long)h->first.load() : 0ull, h ? (unsigned long long)h->last.load() : 0ull);
+    int fd = open(g_crash_out, O_WRONLY | O_CREAT | O_TRUNC, 0644);
+    if (fd >= 0 && n > 0)
+    {
+        (void)!write(fd, buf, (size_t)n);
+        close(fd);
+    }
+    _exit(5);
+}
+static void use_alt_stack()
+{
+    static thread_local bool done = false;
+    if (done)
+        return;
+    done = true;
+    static thread_local char* mem = (char*)malloc(1 << 16);
+    stack_t ss;
+    ss.ss_sp = mem;
+    ss.ss_size = 1 << 16;
+    ss.ss_flags = 0;
+    sigaltstack(&ss, nullptr);
+}
 
 struct MathExplorer
 {
@@ -445,6 +482,8 @@ void MathExplorer::run_fn_space(const MFun& f, const Space<T>& S, const std::vec
             memset(ticks, 0, (BLK / L + 1) * sizeof(uint32_t));
             std::vector<size_t> aborted;
             Heartbeat& H = hb[(size_t)t];
+            tl_hb = &H;
+            use_alt_stack();
             H.op = f.name;
             H.arch = arch.c_str();
             H.first = to_bits<T>(a[0]);
@@ -1591,6 +1630,23 @@ void MathExplorer::run_all()
         // C14, pow with an integer exponent: every entry of the exponent table of each integer type (0, +-1, small, 2^k -+ 1,
         // the extremes of the type and their neighbours and halves) x a value alphabet; the square-and-multiply loop
         // makes one hooked iteration per bit of the exponent, so 64 bounds every type
+        // the remaining binary functions of the public API (time / termination only; their values belong to other properties)
+        if (!expired)
+        {
+            static const d2 zero2 = [](double, double) { return 0.0; };
+            static const l2 zero2l = [](long double, long double) { return 0.0L; };
+            for (const char* nm : { "fmod", "remainder", "fdim", "fmin", "fmax" })
+            {
+                if (!only.empty() && !only.count(nm))
+                    continue;
+                constexpr int el = std::is_same<T, float>::value ? XV_F32 : XV_F64;
+                auto impls = impls_of(nm, el, "M");
+                if (impls.empty())
+                    continue;
+                MFun f { nm, 2, nullptr, zero2, nullptr, zero2l, nullptr, nullptr, 1e30, 1e30, R_POW, 0, 0, false, false, 0, nm };
+                run_fn_space<T>(f, binary_space<T>(nm, thorough, seed), impls, 2);
+            }
+        }
         for (const MFun& f : ipow_funs())
         {
             const char* nm = f.name;
@@ -1812,6 +1868,18 @@ int main(int argc, char** argv)
         return fails[0] ? 1 : 0;
     }
 
+    {
+        snprintf(g_crash_out, sizeof g_crash_out, "%s", out.c_str());
+        snprintf(g_crash_prop, sizeof g_crash_prop, "%s", E.prop.c_str());
+        struct sigaction sa;
+        memset(&sa, 0, sizeof sa);
+        sa.sa_sigaction = crash_handler;
+        sa.sa_flags = SA_SIGINFO | SA_ONSTACK;
+        sigaction(SIGSEGV, &sa, nullptr);
+        sigaction(SIGBUS, &sa, nullptr);
+        sigaction(SIGFPE, &sa, nullptr);
+        sigaction(SIGILL, &sa, nullptr);
+    }
     // hang watchdog: a kernel call that does not return within 30 s is reported and the run ends
     std::atomic<bool> done { false };
     std::thread wd([&]()
